@@ -210,3 +210,94 @@ Proof. exists x04. vm_compute. discriminate. Qed.
 Theorem size_cumulative_refuted :
   exists frames, nth 1 (sizes_cumulative 0 frames) 0 <> blen (nth 1 frames []).
 Proof. exists [[x00]; [x00]]. vm_compute. discriminate. Qed.
+
+(* ---- the shared counters under full-duplex use ---- *)
+Lemma crun_rd_only l : forall c1 c2,
+  forallb is_rd l = true -> c_read c1 = c_read c2 -> c_read (crun c1 l) = c_read (crun c2 l).
+Proof.
+  unfold crun. induction l as [|e l IH]; intros c1 c2 H E; [exact E|].
+  cbn [forallb] in H. apply andb_true_iff in H as [He Hl]. cbn [fold_left].
+  apply IH; [exact Hl|]. destruct e; try discriminate He; cbn [cstep c_read]; congruence.
+Qed.
+
+Lemma filter_rd_all evs : forallb is_rd (List.filter is_rd evs) = true.
+Proof.
+  induction evs as [|e evs IH]; [reflexivity|]. cbn [List.filter].
+  destruct (is_rd e) eqn:E; [cbn [forallb]; rewrite E; exact IH | exact IH].
+Qed.
+
+(* what the writing side does between the reads does not reach the read counter *)
+Lemma crun_read_proj evs : forall c,
+  forallb (fun e => is_rd e || is_wr e) evs = true ->
+  c_read (crun c evs) = c_read (crun c (List.filter is_rd evs)).
+Proof.
+  induction evs as [|e evs IH]; intros c H; [reflexivity|].
+  cbn [forallb] in H. apply andb_true_iff in H as [He Hr].
+  cbn [List.filter]. destruct (is_rd e) eqn:Er.
+  - unfold crun in *. cbn [fold_left]. apply IH. exact Hr.
+  - cbn [orb] in He. unfold crun at 1. cbn [fold_left]. fold (crun (cstep c e) evs).
+    rewrite IH by exact Hr. apply crun_rd_only; [apply filter_rd_all|].
+    destruct e; try discriminate He; try discriminate Er; reflexivity.
+Qed.
+
+Lemma crun_reads reads : forall c, c_read (crun c (map EvRead reads)) = c_read c + sumN reads.
+Proof.
+  unfold crun. induction reads as [|n r IH]; intros c; cbn [map fold_left sumN]; [lia|].
+  rewrite IH. cbn [cstep c_read]. lia.
+Qed.
+
+(* Size() of a received frame on a connection that sends at the same time: any interleaving
+   of Pack's counter events with Unpack's leaves the read counter at the bytes of the frame *)
+Theorem duplex_size_lemma evs reads c :
+  forallb (fun e => is_rd e || is_wr e) evs = true ->
+  List.filter is_rd evs = unpack_events reads ->
+  c_read (crun c evs) = sumN reads.
+Proof.
+  intros Hok Hrd. rewrite crun_read_proj by exact Hok. rewrite Hrd.
+  unfold unpack_events, crun. cbn [fold_left]. fold (crun (cstep c EvZeroR) (map EvRead reads)).
+  rewrite crun_reads. reflexivity.
+Qed.
+
+(* symmetric: the size Pack reports is not disturbed by the reading side *)
+Lemma crun_wr_only l : forall c1 c2,
+  forallb is_wr l = true -> c_written c1 = c_written c2 -> c_written (crun c1 l) = c_written (crun c2 l).
+Proof.
+  unfold crun. induction l as [|e l IH]; intros c1 c2 H E; [exact E|].
+  cbn [forallb] in H. apply andb_true_iff in H as [He Hl]. cbn [fold_left].
+  apply IH; [exact Hl|]. destruct e; try discriminate He; cbn [cstep c_written]; congruence.
+Qed.
+
+Lemma filter_wr_all evs : forallb is_wr (List.filter is_wr evs) = true.
+Proof.
+  induction evs as [|e evs IH]; [reflexivity|]. cbn [List.filter].
+  destruct (is_wr e) eqn:E; [cbn [forallb]; rewrite E; exact IH | exact IH].
+Qed.
+
+Theorem duplex_pack_size_lemma evs len c :
+  forallb (fun e => is_rd e || is_wr e) evs = true ->
+  List.filter is_wr evs = pack_events len ->
+  c_written (crun c evs) = len.
+Proof.
+  intros Hok Hwr.
+  assert (P : forall evs c, forallb (fun e => is_rd e || is_wr e) evs = true ->
+              c_written (crun c evs) = c_written (crun c (List.filter is_wr evs))).
+  { clear. induction evs as [|e evs IH]; intros c H; [reflexivity|].
+    cbn [forallb] in H. apply andb_true_iff in H as [He Hr].
+    cbn [List.filter]. destruct (is_wr e) eqn:Ew.
+    - unfold crun in *. cbn [fold_left]. apply IH. exact Hr.
+    - rewrite orb_false_r in He. unfold crun at 1. cbn [fold_left]. fold (crun (cstep c e) evs).
+      rewrite IH by exact Hr. apply crun_wr_only; [apply filter_wr_all|].
+      destruct e; try discriminate He; try discriminate Ew; reflexivity. }
+  rewrite P by exact Hok. rewrite Hwr. reflexivity.
+Qed.
+
+(* a Pack that zeroes the whole shared counter (ReadWriteCounter.Zero) between two reads of
+   an inbound frame makes the received size depend on the connection's own sends *)
+Theorem duplex_zero_both_refuted :
+  exists (evs : list cev) (reads : list N),
+    (List.filter is_rd evs = unpack_events reads) /\
+    (c_read (crun (mkCtr 0 0) evs) <> sumN reads).
+Proof.
+  exists [EvZeroR; EvRead 216; EvZeroBoth; EvWrite 50; EvRead 216], [216; 216].
+  split; [reflexivity|]. vm_compute. discriminate.
+Qed.
